@@ -211,6 +211,11 @@ def run_path(uni, it, c, fn, info, key, rep):
     except PyRaise as pr:
         outcome, value = "raise", pr.exc
     post = Frame(c.name, cname, c, env=dict(entry_env), spec=True)
+    if rng is not None:
+        # the postconditions of a statement range describe the state where
+        # the range ends: its locals are visible (entry names keep their
+        # entry meaning unless the range rebinds them)
+        post.env = dict(fr.env)
     post.old = fr.old
     if outcome == "return":
         rep.exits["return"] += 1
